@@ -343,6 +343,40 @@ def run(world, rep, tier, only=None):
                    [(v, m.line) for v, m in st][:3])
     rep.floor("C01.k calls that shrink the refcount list", nk, 2)
 
+    # ------------------------------------------------------------------ C01.l a block walk that rewrote the inode is followed by a re-read
+    # check_blocks() keeps working on its copy of the inode after ext2fs_block_iterate3(); when the callback made the
+    # walk rewrite the on-disk inode (BLOCK_CHANGED) that copy is stale and a later e2fsck_write_inode() would put
+    # the bad mapping back - the next run finds it again.  Protocol: the callback raises pb->inode_modified wherever
+    # it reports BLOCK_CHANGED, and check_blocks re-reads the inode under that flag right after the walk.
+    cb_ = prog.fn("check_blocks", "e2fsck/pass1.c")
+    walks_ = calls_to(cb_, "ext2fs_block_iterate3")
+    rep.floor("C01.l block walk in check_blocks", len(walks_), 1)
+    for wk in walks_:
+        cbs = [T.strip(a)["n"] for a in wk.ev["x"].get("a", []) if isinstance(T.strip(a), dict) and T.strip(a).get("k") == "fn"]
+        rereads = [n for n in calls_to(cb_, "e2fsck_read_inode", "e2fsck_read_inode_full")
+                   if any(t and T.last_field(a) and T.last_field(a)[1] == "inode_modified" for t, a in control_lits(cb_, n))]
+        wr = [n for n in calls_to(cb_, "e2fsck_write_inode", "e2fsck_write_inode_full")]
+        # under inode_modified the re-read stands between the walk and every later write
+        def modified_edge(n, si, m):
+            lit = cb_.literal(n.bid)
+            if lit and T.last_field(lit[0]) and T.last_field(lit[0])[1] == "inode_modified":
+                truth = lit[1] if si == 0 else (not lit[1])
+                return truth
+            return True
+        r = cb_.reach(cb_.after(wk), avoid=rereads, edge_ok=modified_edge)
+        rep.ob("C01.l", site(cb_, "inode re-read after a walk that modified it"), bool(rereads) and not any(w_ in r for w_ in wr),
+               "with pb.inode_modified set, every path from the walk to e2fsck_write_inode passes e2fsck_read_inode")
+        for cbn in cbs:
+            g = prog.fn(cbn, "e2fsck/pass1.c")
+            intro = [n for n in g.nodes() if n.ev and n.ev["e"] in ("S", "R") and
+                     "BLOCK_CHANGED" in T.macros((n.ev.get("rhs") if n.ev["e"] == "S" else n.ev.get("x")) or {})]
+            flag = [n for n in g.events("S") if T.last_field(n.ev["lhs"]) and T.last_field(n.ev["lhs"])[1] == "inode_modified"]
+            rep.floor("C01.l BLOCK_CHANGED sites in %s" % cbn, len(intro), 1)
+            for i, n in enumerate(intro):
+                ok = bool(flag) and (g.dominated_by(n, flag) or g.must_pass_after(n, flag))
+                rep.ob("C01.l", site(g, "BLOCK_CHANGED raises inode_modified#%d" % i), ok,
+                       "`%s` (line %d) lies behind or is always followed by `inode_modified = 1`" % (n.text()[:30], n.line))
+
     # ------------------------------------------------------------------ C01.g bitmap checksum verification skipped only for a dirty own bitmap
     p5 = {f.name: f for f in prog.fns_in_file("e2fsck/pass5.c")}
     pass5 = p5.get("e2fsck_pass5")
